@@ -363,4 +363,98 @@ theorem sensor_changes_lost_unrepaired :
     (runStep .repaired e0 [k2, k1]).sensorChanges 10 = some (2, ⟨2, 60⟩) := by
   decide +kernel
 
+/-! ### the list a filter is handed does not depend on the completion order either -/
+
+private theorem recLe_total (a b : Rec) : recLe a b ∨ recLe b a := by unfold recLe; omega
+private theorem recLe_trans {a b c : Rec} (h1 : recLe a b) (h2 : recLe b c) : recLe a c := by unfold recLe at *; omega
+private theorem recLe_antisymm {a b : Rec} (h1 : recLe a b) (h2 : recLe b a) : a = b := by
+  unfold recLe at *
+  cases a; cases b
+  simp only [Rec.mk.injEq] at *
+  omega
+
+private theorem mem_insertRec {r x : Rec} {l : List Rec} : x ∈ insertRec r l ↔ x = r ∨ x ∈ l := by
+  induction l with
+  | nil => simp [insertRec]
+  | cons d l ih =>
+    unfold insertRec
+    by_cases h : recLe r d
+    · simp only [h, if_true, List.mem_cons]
+    · simp only [h, if_false, List.mem_cons, ih]
+      constructor
+      · rintro (h1 | h1 | h1)
+        · exact Or.inr (Or.inl h1)
+        · exact Or.inl h1
+        · exact Or.inr (Or.inr h1)
+      · rintro (h1 | h1 | h1)
+        · exact Or.inr (Or.inl h1)
+        · exact Or.inl h1
+        · exact Or.inr (Or.inr h1)
+
+private theorem insertRec_perm (r : Rec) (l : List Rec) : (insertRec r l).Perm (r :: l) := by
+  induction l with
+  | nil => simp [insertRec]
+  | cons d l ih =>
+    unfold insertRec
+    by_cases h : recLe r d
+    · simp only [h, if_true]; exact List.Perm.refl _
+    · simp only [h, if_false]
+      exact (List.Perm.cons d ih).trans (List.Perm.swap r d l)
+
+private theorem sortRecs_perm (l : List Rec) : (sortRecs l).Perm l := by
+  induction l with
+  | nil => simp [sortRecs]
+  | cons r l ih => exact (insertRec_perm r _).trans (List.Perm.cons r ih)
+
+private theorem insertRec_sorted (r : Rec) (l : List Rec) (h : l.Pairwise recLe) : (insertRec r l).Pairwise recLe := by
+  induction l with
+  | nil => simp [insertRec]
+  | cons d l ih =>
+    obtain ⟨hd, hl⟩ := List.pairwise_cons.mp h
+    unfold insertRec
+    by_cases hc : recLe r d
+    · simp only [hc, if_true]
+      refine List.pairwise_cons.mpr ⟨?_, h⟩
+      intro y hy
+      rcases List.mem_cons.mp hy with rfl | hy'
+      · exact hc
+      · exact recLe_trans hc (hd y hy')
+    · simp only [hc, if_false]
+      refine List.pairwise_cons.mpr ⟨?_, ih hl⟩
+      intro y hy
+      rcases mem_insertRec.mp hy with rfl | hy'
+      · exact (recLe_total d y).resolve_right hc
+      · exact hd y hy'
+
+private theorem sortRecs_sorted (l : List Rec) : (sortRecs l).Pairwise recLe := by
+  induction l with
+  | nil => simp [sortRecs]
+  | cons r l ih => exact insertRec_sorted r _ ih
+
+/-- sorting forgets the order of arrival: two arrival orders of the same records give the same list -/
+theorem sortRecs_of_perm {l1 l2 : List Rec} (h : l1.Perm l2) : sortRecs l1 = sortRecs l2 :=
+  List.Perm.eq_of_pairwise (fun _ _ _ _ h1 h2 => recLe_antisymm h1 h2) (sortRecs_sorted l1) (sortRecs_sorted l2)
+    ((sortRecs_perm l1).trans (h.trans (sortRecs_perm l2).symm))
+
+/-- **every filter is handed the same list of observations whatever order the jobs complete in** (with the engine's
+list kept sorted, 4ecfeb3): not merely the same records - the same records in the same places, so that the stacked
+update is the same floating-point computation. -/
+theorem handed_list_order_independent (e : Engine) (rs1 rs2 : List JobResult) (hp : rs1.Perm rs2)
+    (hc : rs1.Pairwise Compatible) (t : Nat) :
+    handedTo true (runStep .repaired e rs1) t = handedTo true (runStep .repaired e rs2) t := by
+  have hs := assess_order_independent e rs1 rs2 hp hc compatible_symm
+  unfold handedTo
+  simp only [if_true]
+  rw [sortRecs_of_perm hs.obs]
+
+/-- in completion order the same records reach the filter in different places: one sensor reporting a target from two
+of its jobs (all-visible policy, serendipitous observations on) -/
+theorem handed_list_unsorted_witness :
+    let j1 : JobResult := .task 1 [⟨7, 1, 100⟩, ⟨7, 2, 101⟩] [] []
+    let j2 : JobResult := .task 2 [⟨7, 2, 102⟩, ⟨7, 1, 103⟩] [] []
+    let e0 : Engine := ⟨fun _ => none, fun _ => none, [], [], [], [], fun _ => none⟩
+    handedTo false (runStep .repaired e0 [j1, j2]) 1 ≠ handedTo false (runStep .repaired e0 [j2, j1]) 1 ∧
+    handedTo true (runStep .repaired e0 [j1, j2]) 1 = handedTo true (runStep .repaired e0 [j2, j1]) 1 := by
+  decide
+
 end RV.Props.C08
